@@ -236,7 +236,27 @@ def h_ctag_fault(c0: bytes, c1: bytes, target: int, body: bytes, k: int) -> bool
     return run(body_ctag_fault, c0, c1, target, body, k)
 
 
+
+def body_ctag_step_menu(i0, i1, target):
+    """`body_ctag_step` over the token menu (see _store.menu_steps): exhaustive for every partition."""
+    return _store.menu_steps(body_ctag_step, i0, i1, target, with_hist=True)
+
+
+def h_ctag_step_menu(i0: int, i1: int, target: int) -> bool:
+    """
+    pre: 0 <= i0 < 6 and 0 <= i1 < 6 and 0 <= target < 6
+    post: _
+    """
+    return run(body_ctag_step_menu, i0, i1, target)
+
 HARNESSES = [
+    Harness("ctag_step_menu", h_ctag_step_menu, body_ctag_step_menu, classes=[("menu:put", ("bare", 0, 0))],
+            parts={"quick": _store.parts(("bare", "tree"))}, bounds={"quick": {"n": 2, "blen": 2}, "thorough": {"n": 2, "blen": 2}},
+            budget={"quick": 100, "thorough": 200}, per_path_timeout={"quick": 60, "thorough": 60},
+            describe="the tag obligations of ctag_step over a menu of 7 body tokens (absent, two contents of one UID, another UID, to-be-normalised, "
+                     "no UID, invalid): pre-state and target chosen by the solver, written body and kind of earlier history "
+                     "looped inside; exhaustive over the menu for every (back end, operation, condition) partition",
+            encodes=_store.STEP_ENCODES),
     Harness("ctag_step", h_ctag_step, body_ctag_step,
             classes=[("put:changed", ("bare", 0, 0)), ("put:same", ("tree", 0, 0)), ("delete:changed", ("tree", 1, 0)),
                      ("delete:same", ("bare", 1, 3)), ("read:same", ("bare", 2, 0))],
